@@ -33,6 +33,32 @@ for name,j in sorted(res.items()):
     v=', '.join(f"{k}: {x['verdict']}" for k,x in j['results'].items())
     out.append(f"| {name} | {j['file']} | {v} |")
 out.append("")
+# mechanical sweep
+ap=os.path.join(HERE,'mutants','auto_results.jsonl')
+if os.path.exists(ap):
+    from collections import Counter
+    rs={}
+    for l in open(ap):
+        j=json.loads(l); rs[j['id']]=j
+    an={}
+    anp=os.path.join(HERE,'mutants','auto_analysis.json')
+    if os.path.exists(anp): an=json.load(open(anp))
+    st=Counter(r['status'] for r in rs.values())
+    valid=[r for r in rs.values() if r['status'] in ('KILLED','KILLED-EXIT2','SURVIVED')]
+    killed=[r for r in valid if r['status']!='SURVIVED']
+    out.append("### 9.2b Mechanical sweep (`tools/automutate.py`)\n")
+    out.append("One-token mutants sampled from every non-test, non-cosmetic line of `/repo/src` (comparison and boolean operators, off-by-one, wrapping add/sub, is_some/is_none, min/max, inclusive/exclusive ranges, register and address-range constants; for `os.asm`: branch conditions, immediates, registers, addressing mode), at most one per source line, fixed sampling seed. A mutant counts only if the crate still compiles and the 35 pinned unit tests pass. The quick tiers are then run with `LC3V_REPO` pointing at the mutated copy, most relevant checks first, stopping at the first check that reports a violation; a survivor has passed all 36 quick tiers.\n")
+    out.append(f"Sampled and run so far: {len(rs)}; did not compile: {st.get('NOCOMPILE',0)}; rejected by the pinned unit tests: {st.get('PINNED-TESTS-FAIL',0)}; **valid: {len(valid)}, detected: {len(killed)}** (of these {st.get('KILLED-EXIT2',0)} as an invalid run, exit 2), **survived: {st.get('SURVIVED',0)}**.\n")
+    kb=Counter(r.get('killed_by') for r in killed)
+    out.append("Detected by (first check in the order tried): "+', '.join(f"{k} {v}" for k,v in sorted(kb.items()))+".\n")
+    verd=Counter((an.get(r['id']) or ['unanalysed'])[0] for r in valid if r['status']=='SURVIVED')
+    out.append("Survivors by verdict: "+', '.join(f"{k} {v}" for k,v in sorted(verd.items()))+". `equivalent` = no observable difference; `cosmetic` = column padding of the text format; `out-of-scope`/`out-of-domain` = observable, but no listed property speaks about it (each entry says why); `gap-closed` = a listed property does cover it and a check was extended (the extension is named).\n")
+    out.append("| mutant | where | change | verdict | why |\n|---|---|---|---|---|")
+    for r in sorted(valid,key=lambda r:r['id']):
+        if r['status']=='SURVIVED' or r['status']=='KILLED-EXIT2':
+            a=an.get(r['id']) or ['unanalysed','']
+            out.append(f"| {r['id']} | {r['file']}:{r['line']} | {r['op']}: `{r['before'][:70].replace('|','/')}` | {a[0]} | {a[1].replace('|','/')} |")
+    out.append("")
 text='\n'.join(out)
 dp=os.path.join(HERE,'DESIGN.md')
 s=open(dp).read()
